@@ -69,3 +69,34 @@
         kani::cover!(dist == 32768);
         kani::cover!(dist == 1);
     }
+    /// reader direction, every length code 0..=28 with every value of its extra bits: the decoded length is 3..=258 and
+    /// the writer's quantize_length maps it back to the same code -- except the one non-canonical form (code 284 with
+    /// all five extra bits set), which denotes 258 and is what the token flag irregular258 records
+    #[kani::proof]
+    fn dequantize_length_all() {
+        let q: usize = kani::any();
+        let e: u32 = kani::any();
+        kani::assume(q < LEN_CODE_COUNT);
+        kani::assume(e < (1u32 << LENGTH_EXTRA_TABLE[q]));
+        assert!(LENGTH_EXTRA_TABLE[q] <= 5);
+        let len = MIN_MATCH + LENGTH_BASE_TABLE[q] as u32 + e;
+        assert!(len >= 3 && len <= 258);
+        if q == 27 && e == 31 { assert!(len == 258); } else { assert!(quantize_length(len) == q); assert!((len == 258) == (q == 28)); }
+        kani::cover!(q == 27 && e == 31);
+        kani::cover!(q == 28);
+    }
+
+    /// reader direction, every distance code 0..=29 with every value of its extra bits
+    #[kani::proof]
+    fn dequantize_distance_all() {
+        let q: usize = kani::any();
+        let e: u32 = kani::any();
+        kani::assume(q < DIST_CODE_COUNT);
+        kani::assume(e < (1u32 << DIST_EXTRA_TABLE[q]));
+        assert!(DIST_EXTRA_TABLE[q] <= 13);
+        let dist = 1 + DIST_BASE_TABLE[q] as u32 + e;
+        assert!(dist >= 1 && dist <= 32768);
+        assert!(quantize_distance(dist) == q);
+        kani::cover!(q == 29 && e == 8191);
+    }
+
